@@ -18,6 +18,7 @@ type Gen struct {
 	Hist    []abs.Event // everything generated so far (for references and re-offers)
 	Prefix  string
 	// Shape knobs
+	Extreme     bool // now and then a created_at / since / until at the ends of the int64 range
 	NoEphemeral bool
 	SQL         bool // avoid shapes the SQLite property leaves open (d-less addressable)
 }
@@ -58,6 +59,9 @@ func (g *Gen) knownLabel() string {
 // Event generates a fresh event (never self-referencing).
 func (g *Gen) Event() abs.Event {
 	e := abs.Event{ID: g.label(), Author: g.pick(g.Authors), TS: 1 + g.R.Int63n(g.MaxTS)}
+	if g.Extreme && g.R.Intn(5) == 0 {
+		e.TS = []int64{-1000000, -999999, 999999, 1000000}[g.R.Intn(4)]
+	}
 	e.Kind = genKinds[g.R.Intn(len(genKinds))]
 	if g.NoEphemeral && cls(e.Kind) == "ephemeral" {
 		e.Kind = 1
@@ -77,6 +81,10 @@ func (g *Gen) Event() abs.Event {
 			tags = append(tags, abs.Tag{Name: "d", Val: "", N: 1})
 		case 5:
 			tags = append(tags, abs.Tag{Name: "d", Val: "x", N: 3})
+		}
+		if g.R.Intn(8) == 0 {
+			tags[len(tags)-1].Val = []string{"u:v", "u", "u:v:w"}[g.R.Intn(3)]
+			tags[len(tags)-1].N = 2
 		}
 		if g.R.Intn(5) == 0 { // a second d tag is ignored
 			tags = append(tags, abs.Tag{Name: "d", Val: "y", N: 2})
@@ -101,7 +109,7 @@ func (g *Gen) Event() abs.Event {
 				if g.R.Intn(4) == 0 {
 					a = g.pick(g.Authors)
 				}
-				d := []string{"x", "y", ""}[g.R.Intn(3)]
+				d := []string{"x", "y", "", "u:v", "u"}[g.R.Intn(5)]
 				tags = append(tags, abs.Tag{Name: "a", Val: "30000:" + a + ":" + d, N: nel})
 			} else {
 				tags = append(tags, abs.Tag{Name: "e", Val: g.knownLabel(), N: nel})
@@ -195,6 +203,14 @@ func (g *Gen) Filter() abs.Filter {
 	}
 	if r.Intn(2) == 0 {
 		f.Limit = abs.OptInt{P: true, V: []int64{0, 1, 1, 2, 3, 5}[r.Intn(6)]}
+	}
+	if g.Extreme && r.Intn(3) == 0 {
+		if r.Intn(2) == 0 {
+			f.Until = abs.OptInt{P: true, V: []int64{999999, 1000000}[r.Intn(2)]}
+		} else {
+			f.Since = abs.OptInt{P: true, V: []int64{-1000000, 999999}[r.Intn(2)]}
+			f.Until = abs.OptInt{}
+		}
 	}
 	return f
 }
